@@ -79,6 +79,12 @@ pub fn lits() -> &'static Lits {
                 }
             }
         }
+        // special points of the elementary functions (not literals anywhere, computed values):
+        // multiples of pi/2, e, ln 2, sqrt 2, thirds and tenths, each with both ulp neighbours
+        use std::f32::consts::*;
+        for f in [FRAC_PI_2, PI, 3.0 * FRAC_PI_2, TAU, FRAC_PI_4, E, LN_2, SQRT_2, 1.0 / 3.0, 0.1, 0.2, 0.1 + 0.2, 0.3, 16777216.0, 2147483648.0, 4294967296.0] {
+            l.floats.extend([f, -f, f32::from_bits(f.to_bits() + 1), f32::from_bits(f.to_bits() - 1)]);
+        }
         l.ints.sort();
         l.ints.dedup();
         l.floats.retain(|f| !f.is_nan());
